@@ -25,7 +25,11 @@ PROPS = {
         level_note='Covers symmetric (MSG/CLO) chunks; OPN/RSA sizes and the crypto round trip (OpenSSL) are assumed. Environment contracts standing for repository code (header byte_len, make_security_header) are re-checked by Kani on the real functions. Known finding: chunk overshoot for certain residues of the chunk size.',
         technique='Verus strongest-postcondition contracts on mechanically extracted real functions + arithmetic lemmas',
         verus=['c07_sizes'],
-        kani=[],
+        kani=[
+            H('c07::c07_padding_twin', 'C07.twin', functions=['lib/src/core/comms/secure_channel.rs:SecureChannel::padding_size (compiled)', 'lib/src/core/comms/message_chunk.rs:MessageChunk::body_size_from_message_size (compiled)']),
+            H('c07::c07_env_headers', 'C07.env', functions=['lib/src/core/comms/security_header.rs:SequenceHeader::byte_len', 'lib/src/core/comms/security_header.rs:SecurityHeader::byte_len', 'lib/src/core/comms/secure_channel.rs:SecureChannel::make_security_header']),
+            H('c07::c07_kf_overshoot_witness', 'C07.kf.overshoot', kind='bounded', bound='one concrete input (witness of a known finding)', witness_for='C07.chunk_overshoot'),
+        ],
         explanation='size/structure half of C07 for symmetric chunks',
     ),
     'C22': dict(
